@@ -71,7 +71,7 @@ theorem run_shape {cfg : Cfg} (wf : WF cfg) (ord : List Path) (hord : ord.Nodup)
     cases rs with
     | true => simpa using run_resume_eq cfg ord fs
     | false => simpa using run_fresh_eq cfg ord (hcl rfl)
-  obtain ⟨hg, hfin⟩ := rest_run wf ord hord rs (rs && fs.has .lock) hj
+  obtain ⟨hg, hfin⟩ := rest_run_ref wf ord hord rs (rs && fs.has .lock) hj
     (by intro e; simp only [Bool.and_eq_true] at e; exact e.1)
     (by intro e; simp only [Bool.and_eq_true] at e; rw [hlk]; exact e.2)
     (by intro e _ e'; rw [hlk]; subst e'; simpa using e)
@@ -88,7 +88,8 @@ theorem run_shape {cfg : Cfg} (wf : WF cfg) (ord : List Path) (hord : ord.Nodup)
   obtain ⟨hok0, hevs0⟩ := runActs_of_checks hck
   have hfs0 : (runActs (paramsStage rs fs) fs).fs = afterParams fs := by
     rw [runActs_fs, hevs0, hev]; rfl
-  refine ⟨(runStages (restStages cfg ord rs ((rs && fs.has .lock) || cfg.fromSaves)) (afterParams fs)).evs, ?_, ?_, hg.2, ?_⟩
+  refine ⟨(runStages (refStage fixed cfg rs :: restStages cfg ord rs ((rs && fs.has .lock) || cfg.fromSaves))
+    (afterParams fs)).evs, ?_, ?_, hg.2, ?_⟩
   · simp only [hrun, stages_eq, runStages, hok0, if_true, hevs0, hev, hfs0]; rfl
   · simp only [hrun, stages_eq, runStages, hok0, if_true, hfs0]; exact hg.1
   · simp only [hrun, stages_eq, runStages, hok0, if_true, hfs0]; exact hfin
@@ -400,9 +401,9 @@ theorem resume_never_silently_wrong_carried_counter_witness :
 
 -- `resume_correct` covers both dimensions: the same kill points on the repaired code
 example : verdict fixed cfgQ ord1 ord1 57 = .equal ∧ verdict fixed cfgB ord1 ord1 16 = .equal :=
-  ⟨resume_correct (cfg := cfgQ) ⟨by decide, by decide, by decide, fun _ => Iff.rfl, fun _ => Iff.rfl⟩ rfl ord1 ord1
+  ⟨resume_correct (cfg := cfgQ) ⟨by decide, by decide, by decide, fun _ => Iff.rfl, fun _ _ h => h⟩ rfl ord1 ord1
       (by decide) (by decide) 57 (by omega),
-   resume_correct (cfg := cfgB) ⟨by decide, by decide, by decide, fun _ => Iff.rfl, fun _ => Iff.rfl⟩ rfl ord1 ord1
+   resume_correct (cfg := cfgB) ⟨by decide, by decide, by decide, fun _ => Iff.rfl, fun _ _ h => h⟩ rfl ord1 ord1
       (by decide) (by decide) 16 (by omega)⟩
 
 /-! ### non-vacuity -/
@@ -415,9 +416,10 @@ def ord3 : List Path := [.bamstat 1, .save 2, .groups 0, .processed 2, .trStat 0
                          .rgSplit 2, .rgLock, .rgSplit 0]
 
 theorem cfg3_wf : WF cfg3 := by
-  refine ⟨by decide, by decide, by decide, ?_, ?_⟩ <;> intro c <;>
-    simp only [cfg3, List.mem_cons, List.not_mem_nil, or_false] <;>
-    constructor <;> rintro (rfl | rfl | rfl) <;> simp
+  refine ⟨by decide, by decide, by decide, ?_, by decide⟩
+  intro c
+  simp only [cfg3, List.mem_cons, List.not_mem_nil, or_false]
+  constructor <;> rintro (rfl | rfl | rfl) <;> simp
 
 -- the hypotheses of `resume_correct` are met by a concrete non-trivial input: 302 events, kill point 200
 example : WF cfg3 ∧ ord3.Nodup ∧ (cleanEvents fixed cfg3 ord3).length = 302 ∧ 2 ≤ 200 ∧
@@ -431,7 +433,7 @@ example : verdict fixed cfg3 ord3 ord3 1 = .fail := by decide +kernel
 -- the history clauses are met by concrete inputs: a dirty folder with two locks to remove (kill point 4 = right after
 -- `.params`), and save files with a stale `_processed` lock (one lock to remove, kill point 3)
 example : (lockList cfg1 leftover1).length + 2 ≤ 4 ∧ verdictFrom fixed cfg1 ord1 ord1 leftover1 4 = .equal :=
-  ⟨by decide, resume_correct_dirty_folder (cfg := cfg1) ⟨by decide, by decide, by decide, fun _ => Iff.rfl, fun _ => Iff.rfl⟩ rfl
+  ⟨by decide, resume_correct_dirty_folder (cfg := cfg1) ⟨by decide, by decide, by decide, fun _ => Iff.rfl, fun _ _ h => h⟩ rfl
       ord1 ord1 (by decide) (by decide) leftover1 4 (by decide)⟩
 
 theorem saves1Stale_consistent : SavesConsistent cfgS saves1Stale := by
@@ -440,7 +442,7 @@ theorem saves1Stale_consistent : SavesConsistent cfgS saves1Stale := by
   · intro c hc _; simp only [cfgS, cfg1, List.mem_cons, List.not_mem_nil, or_false] at hc; subst hc; exact ⟨by decide, by decide⟩
 
 example : (lockList cfgS saves1Stale).length + 2 ≤ 3 ∧ verdictFrom fixed cfgS ord1 ord1 saves1Stale 3 = .equal :=
-  ⟨by decide, resume_correct_read_assignments (cfg := cfgS) ⟨by decide, by decide, by decide, fun _ => Iff.rfl, fun _ => Iff.rfl⟩ rfl
+  ⟨by decide, resume_correct_read_assignments (cfg := cfgS) ⟨by decide, by decide, by decide, fun _ => Iff.rfl, fun _ _ h => h⟩ rfl
       ord1 ord1 (by decide) (by decide) saves1Stale saves1Stale_consistent 3 (by decide)⟩
 
 end IsoVerif.Props.C07
